@@ -56,7 +56,10 @@ func catalogue(prop string) []Mutant {
 	sort.Strings(dirs)
 	for _, d := range dirs {
 		id := filepath.Base(filepath.Dir(d))
-		p := strings.SplitN(strings.TrimPrefix(strings.TrimPrefix(id, "r2-"), "r3-"), "-", 2)[0]
+		p := id
+		if i := strings.Index(id, "C"); i >= 0 { // "C07-2", "r2-C07-2", "r4-C07-2" …
+			p = strings.SplitN(id[i:], "-", 2)[0]
+		}
 		if prop == "all" || p == prop {
 			ms = append(ms, Mutant{ID: "seeded/" + id, Property: p, patch: d})
 		}
